@@ -62,6 +62,13 @@ def gen_cases(rng, tier):
         for fmt in ('csv', 'json'):
             cases.append({'kind': 'dump', 'pkg': rows_enc_pkg([rows_, rows_[:1]]), 'format': fmt, 'zip': (ci + len(fmt)) % 2 == 0, 'mode': 'fresh',
                           'bad': 0, 'counters': ci, 'hashpath': False, 'pretty': False})
+    rows5 = [{'id': j, 't': 'x%d' % j, 'n': 1.5} for j in range(5)]
+    for fmt in ('csv', 'json'):
+        for ci in (0, 1):
+            cases.append({'kind': 'dump', 'pkg': rows_enc_pkg([rows5, rows5[:3]]), 'format': fmt, 'zip': False, 'mode': 'fresh', 'bad': 0,
+                          'counters': ci, 'hashpath': False, 'pretty': False, 'two_dumps': True})
+            cases.append({'kind': 'dump', 'pkg': rows_enc_pkg([rows5, rows5[:3]]), 'format': fmt, 'zip': ci == 1, 'mode': 'fresh', 'bad': 0,
+                          'counters': ci, 'hashpath': False, 'pretty': False, 'stopper': True})
     # systematically: add_filehash_to_path with resources whose files are byte-identical (they share the hash directory),
     # dumped afresh and again into the same directory
     rows = [{'id': j, 't': 'x', 'n': None} for j in range(2)]
@@ -109,8 +116,20 @@ def dump_once(case, target, source=None, extra=0):
     if case.get('bad'):
         kw['validator_options'] = {'on_error': DF.schema_validator.drop}
     step = DF.dump_to_zip(target, **kw) if case['zip'] else DF.dump_to_path(target, **kw)
+    before, after = [], []
+    if case.get('two_dumps'):
+        # an earlier dumper of the same flow (all rows, default counters) and a filter between the two: the stats process()
+        # returns are those of the dumper that ends the flow
+        before = [DF.dump_to_path(target + '_first'), DF.filter_rows(condition=lambda r: not isinstance(r['id'], int) or r['id'] % 2 == 0)]
+    if case.get('stopper'):
+        def take1(rows):
+            for i, r in enumerate(rows):
+                if i >= 1:
+                    break
+                yield r
+        after = [take1]
     with quiet():
-        dp, stats = Flow(source if source is not None else Src(res), step).process()
+        dp, stats = Flow(source if source is not None else Src(res), *before, step, *after).process()
     files = {}
     if case['zip']:
         with zipfile.ZipFile(target) as z:
